@@ -129,6 +129,8 @@ class RecordHeader2(RecordHeader):
         secondByte = parser.get(1)
         if firstByte & 0x80:
             self.length = ((firstByte & 0x7f) << 8) | secondByte
+            self.securityEscape = False
+            self.padding = 0
         else:
             self.length = ((firstByte & 0x3f) << 8) | secondByte
             self.securityEscape = firstByte & 0x40 != 0
